@@ -27,7 +27,9 @@ PROC = "requirements.py::process_all_requirements"
 INST = "requirements.py::install_requirements"
 LINES = ["foo", "foo==1.0.0", "foo==2.0.0", "foo==2.0", "foo==10.0.0", "# just a comment", "", "foo>=1.5", "foo==1.5.0  # pin (see issue), works with >=1.5, <3", "foo~=1.0",
          # malformed lines: no package name; a pin that is not a version; (pip accepts blanks around ==)
-         "==1.0", "foo==latest", "foo ==3.0.0"]
+         "==1.0", "foo==latest", "foo ==3.0.0",
+         # forms pip knows and the '==' parser does not (one '=', an option, a direct reference): unsupported, ignored - never a package called like the whole line
+         "foo=1.0", "-r other.txt", "foo @ file:///x.whl"]
 
 
 def _version_summary(interp, node, args, kwargs, cfg, out):
@@ -49,7 +51,7 @@ def _installed_version(interp, node, args, kwargs, cfg, out):
     return []
 
 
-def _merge(program, files, consts):
+def _merge(program, files, consts, bom=False, asked=None):
     """files: list of list of lines -> selected version string (or None) for package foo, or an error description."""
     paths = [f"/cfg/pyscript/req{i}.txt" for i in range(len(files))]
 
@@ -58,19 +60,24 @@ def _merge(program, files, consts):
         return [(cfg.hset("$globbed", Const(True)), ListV([Const(p) for p in paths]) if first else ListV(()))]
 
     def open_(interp, node, args, kwargs, cfg, out):
-        return [(cfg, ObjV("file:" + args[0].v, "file"))]
+        enc = kwargs.get("encoding", args[2] if len(args) > 2 else None)
+        return [(cfg.hset("$enc:" + args[0].v, enc if enc is not None else Const(None)), ObjV("file:" + args[0].v, "file"))]
 
     def readlines(interp, node, args, kwargs, cfg, out):
         fp = cfg.env.get("requirements_fp")
         idx = paths.index(fp.oid[5:])
-        return [(cfg, ListV([Const(l + "\n") for l in files[idx]]))]
+        enc = cfg.heap.get("$enc:" + fp.oid[5:])
+        # a file saved as "UTF-8 with BOM": only the utf-8-sig codec drops the mark, str.strip() keeps U+FEFF
+        mark = "\ufeff" if bom and not (isinstance(enc, Const) and str(enc.v).lower().replace("_", "-") == "utf-8-sig") else ""
+        return [(cfg, ListV([Const((mark if j == 0 else "") + l + "\n") for j, l in enumerate(files[idx])]))]
 
     from ..absint import FuncV
     glob_ = dict(consts)
     glob_["get_installed_version"] = FuncV(program.func("requirements.py::get_installed_version"), name="get_installed_version")
     pol = FlowPolicy(program, may_raise_all=False, cancel=False, globals_=glob_,
                      summaries={"glob.glob": glob_glob, "open": open_, "requirements_fp.readlines": readlines, "Version": _version_summary,
-                                "installed_version": _installed_version},
+                                "installed_version": _installed_version if asked is None else
+                                (lambda i, n, a, k, c, o: (asked.append(a[0].v if a and isinstance(a[0], Const) else repr(a)), _installed_version(i, n, a, k, c, o))[1])},
                      inline={"get_installed_version"})
     pol.loop_unroll = 2
     out = run_flow(program, PROC, pol, args={"pyscript_folder": Const("/cfg/pyscript"), "requirements_paths": ListV([Const("")], "tuple"),
@@ -114,8 +121,9 @@ def _expected_merge(lines, unpinned):
             except Exception:  # noqa - not a version: an unsupported specifier, ignored
                 continue
             pins.append(pin)
-        else:
+        elif l == "foo":
             has_unpinned = True
+        # anything else without '==' is not a package name (PEP 508): unsupported, ignored
     if pins:
         best = max(pins, key=Version)
         return {p for p in pins if Version(p) == Version(best)}
@@ -148,13 +156,37 @@ def run(ctx):
             bad = {k2: g for k2, g in results.items() if not (len(g) == 1 and next(iter(g)) in exp)}
             n += 1
             shown = [l for l in lines]
-            if bad:
+            distinct = {frozenset(g) for g in results.values()}
+            if not bad and len(distinct) > 1:
+                ctx.fail("R20.4", PROC, f"merge of {shown}: one result for every order",
+                         f"requirement lines {shown}: the selected version text of foo depends on the order of lines/files: {sorted(sorted(map(repr, d)) for d in distinct)} "
+                         f"(equal versions written differently: whichever comes first is passed to the installer and stored in the record)", node=program.func(PROC), rel="requirements.py")
+            elif bad:
                 (perm, cut), g = sorted(bad.items(), key=repr)[0]
                 ctx.fail("R20.4", PROC, f"merge of {shown}",
                          f"requirement lines {shown}: with file 1 = {list(perm[:cut])} and file 2 = {list(perm[cut:])} the selected version of foo is {sorted(map(repr, g))}, specified {sorted(map(repr, exp))} "
                          f"({len(bad)} of {len(results)} orders deviate)", node=program.func(PROC), rel="requirements.py")
             else:
                 ctx.ok("R20.4", PROC, f"merge of {shown}: {len(results)} orders agree", sample={"selected": sorted(map(repr, exp))} if n % 20 == 1 else None)
+
+    ctx.rule("R20.8", "a requirements.txt saved with a byte order mark (what Windows editors write as 'UTF-8') is read like one without: its first line names the same "
+             "package, no extra entry appears", floor=3)
+    for lines in (["foo==1.0.0", "foo==2.0.0"], ["foo"], ["foo==1.0.0"]):
+        for files in ([lines, []], [lines[:1], lines[1:]]) if len(lines) > 1 else ([lines, []],):
+            got = _merge(program, files, consts, bom=True)
+            exp = _expected_merge(lines, unp)
+            ctx.check(len(got) == 1 and next(iter(got)) in exp, "R20.8", PROC, f"files {files} with a byte order mark",
+                      msg=f"requirement files {files} saved with a byte order mark: foo -> {sorted(map(repr, got))}, specified {sorted(map(repr, exp))}: the first line's package is "
+                      f"named '\\ufefffoo', handed to the installer and recorded under that name", key=f"bom {files}", node=program.func(PROC), rel="requirements.py")
+
+    ctx.rule("R20.9", "the host's package is recognised under every spelling of the requirement: the installed version is looked up for the distribution name, "
+             "without an [extras] suffix (a lookup that finds nothing makes the package 'not installed' and the host's copy is replaced)", floor=2)
+    for line, dist in (("foo[extra]==2.0.0", "foo"), ("foo[extra]", "foo"), ("foo==2.0.0", "foo")):
+        asked = []
+        _merge(program, [[line], []], consts, asked=asked)
+        ctx.check(bool(asked) and set(asked) == {dist}, "R20.9", PROC, f"installed version of `{line}` is looked up as {dist!r}",
+                  msg=f"requirement `{line}`: the installed version is looked up under {sorted(set(asked))} instead of {dist!r}: importlib.metadata finds nothing, the package counts as "
+                  f"not installed and is handed to the installer although the host has it", key=f"lookup name {line}", node=program.func(PROC), rel="requirements.py")
 
     ctx.rule("R20.2", "install decision table over installed x recorded x wanted; the record equals what pyscript installed", floor=40)
     for allow in (True, False):
@@ -173,7 +205,8 @@ def run(ctx):
                         else:
                             queue = recorded is not None and Version(recorded) == Version(installed) and Version(wanted) != Version(installed)
                         if installed is not None and recorded is not None:
-                            differs = (recorded != installed) if not pinned else (Version(recorded) != Version(installed))
+                            # "externally managed now" means another *version*, however the two are written (record 2.0.0, metadata 2.0)
+                            differs = Version(recorded) != Version(installed)
                         else:
                             differs = False
                         exp_install = [f"foo=={wanted}" if pinned else "foo"] if queue else []
